@@ -167,8 +167,8 @@ def run(ck):
     raw = vlib.read_ndjson(cpath)
     chosen = pick(raw, 250 if q else 2500)
     cases = []
-    for kind in ("push", "alt"):
-        for c in chosen:
+    for kind in ("push", "alt", "split"):
+        for c in (chosen if kind != "split" else chosen[:len(chosen) // 2]):
             cases.append({"id": len(cases), "kind": kind, "hist": c["hist"], "expected": expected_of(c)})
     # the smallest struct the builder feature accepts (MiniState: exec + one stack, no inputs, no step
     # limit) has its own instance of the specification
@@ -187,9 +187,24 @@ def run(ck):
                 {"k": "values", "s": "a", "n": 0, "xs": [7], "name": ""},
                 {"k": "values_huge", "s": "a", "n": 0, "xs": [], "name": ""}]
         cases.append({"id": len(cases), "kind": kind, "hist": hist, "expected": {"status": "overflow", "at": 3}})
+    # "has the maximum size last set for it" also for the largest sizes there are
+    def call(k, s="", n=0, xs=(), name=""):
+        return {"k": k, "s": s, "n": n, "xs": list(xs), "name": name}
+    for kind in ("push", "alt", "split", "mini"):
+        for size, shown in (("MAX", UNBOUNDED), ("BIG", 1 << 63)):
+            tail = [call("no_program")] + ([] if kind == "mini" else [call("step_limit", n=5)]) + [call("build")]
+            for hist, maxa in (([call("max_all", n=size)] + tail, shown),
+                               ([call("max_all", n=3), call("max_of", s="a", n=size)] + tail, shown)):
+                glob = shown if hist[0]["n"] == size else 3
+                if kind == "mini":
+                    exp = {"status": "built", "vals": {"a": []}, "max": {"a": maxa}, "exec": [], "execMax": glob}
+                else:
+                    exp = {"status": "built", "vals": {"a": [], "b": []}, "max": {"a": maxa, "b": glob}, "exec": [],
+                           "execMax": glob, "limit": 5, "inputs": [], "third_max": glob, "third_size": 0}
+                cases.append({"id": len(cases), "kind": kind, "hist": hist, "expected": exp})
     n = run_well_typed(ck, cases)
     rows = []
-    for kind in ("push", "alt"):
+    for kind in ("push", "alt", "split"):
         for t in tres.tagged.get("TYPESTATE", []):
             rows.append({"id": len(rows), "kind": kind, "state": t["state"], "prefix": t["prefix"],
                          "call": t["call"], "legal": t["legal"]})
